@@ -6,9 +6,9 @@ OPTS = [(False, False, False), (True, False, False), (False, True, False), (True
         (True, False, True), (True, True, True)]
 
 
-def emit_and_check(R, name, r, c, W=None):
+def emit_and_check(R, name, r, c, W=None, opts=None):
     src = rc.structural(r)
-    for o in OPTS:
+    for o in (opts or OPTS):
         key = f'idx{int(o[0])}crc{int(o[1])}cache{int(o[2])}'
         st, b = mon.call(c.to_boc, *o)
         if st == 'exc':
@@ -108,6 +108,13 @@ def run(R):
         R.case(mon.fp(r.hash) if ncells > 1 else None, sample={'class': name, 'cells': ncells})
         R.cover('classes', name)
         R.extra['largest_dag'] = max(R.extra.get('largest_dag', 0), ncells)
+    # a bag whose (doubled) offsets need 4 bytes: 66 000 full cells = 8.6 MiB of cell data, index with cache bits (quick tier; the thorough tier has the 2^24-byte classes)
+    if R.shard == 0 and R.tier == 'quick':
+        r = gen.wide(66000, leaf_bits=lambda i: rc.u(i, 24) + '1' * 999)
+        st, c = mon.call(bridge.to_lib, r, 'builder')
+        if st == 'ok':
+            emit_and_check(R, 'payload-8MiB-index-cache-bits', r, c, {'class': 'payload-8MiB-index-cache-bits', 'cells': 66000}, opts=[(True, False, True)])
+            R.cover('classes', 'payload-8MiB-index-cache-bits')
     # cells built from a plain bit array and cells that came out of the parser serialise alike
     if R.shard == 0:
         from bitarray import bitarray
@@ -121,6 +128,7 @@ def run(R):
             R.case(mon.fp('plain', bits))
     R.floor('emissions:idx1crc1cache1', 5)
     R.floor('index_entries_verified', 50)
+    R.floor('off_bytes', 3, 'set')
     R.floor('multi_bag_emissions', 20)
     R.floor('fresh_object_emissions', 20)
     R.floor('emissions_after_derived_use', 20)
